@@ -123,7 +123,7 @@ theorem osc_keeps (nnc : Bool) (n : Nat) (gs : List Row) (y : FPoly) (hn : y.p.n
   · rw [hnpE]
     have := hcore.permC hp1 y.obtainSortedConstraintsWithSatC.satC y.obtainSortedConstraintsWithSatC.satG
       (fun h' => (by cases h'))
-    exact ⟨this.sound, this.complete, this.minC, this.minG, fun _ => hVC2, fun _ => hVG2⟩
+    exact ⟨this.sound, this.complete, this.minC, this.minG, this.minL, fun _ => hVC2, fun _ => hVG2⟩
 
 /-- **the preparation of `process_pending_constraints` keeps the pair** -/
 theorem sortKeepsPairC : SortKeepsPairC := by
@@ -178,6 +178,6 @@ theorem sortKeepsPairC : SortKeepsPairC := by
     rw [e]
     refine ⟨by rw [hyp]; exact hfpC, fun r => by rw [hyp], fun r => by rw [hynp], ?_⟩
     rw [hynp, hyG, hyp]
-    exact ⟨E.sound, E.complete, E.minC, E.minG, fun _ => hVC, E.satG⟩
+    exact ⟨E.sound, E.complete, E.minC, E.minG, E.minL, fun _ => hVC, E.satG⟩
 
 end PPLV.PolyFull
